@@ -168,7 +168,7 @@ class Scatterers(Scatterer):
         translated : Scatterer
             A copy of this scatterer translated to a new location
         """
-        if coord2 is None and len(ensure_array(coord1)==3):
+        if coord2 is None and len(ensure_array(coord1))==3:
             #entered translation vector
             trans_coords = ensure_array(coord1)
         elif coord2 is not None and coord3 is not None:
@@ -184,7 +184,7 @@ class Scatterers(Scatterer):
 
     def rotated(self, ang1, ang2=None, ang3=None):
 
-        if ang2 is None and len(ensure_array(ang1)==3):
+        if ang2 is None and len(ensure_array(ang1))==3:
             #entered rotation angle tuple
             alpha, beta, gamma = ang1
         elif ang2 is not None and ang3 is not None:
